@@ -92,15 +92,15 @@ Definition forward_agree (cs : cluster) (conf : list dir) (tbl : matchtable) (q 
   | _, _ => true        (* the kind of answer is the outcome comparison's matter *)
   end.
 
-(* class of finding D48: the answering location proxies HTTP (proxy_pass) and yet begins with the rewrite that internal
+(* class of finding D48: the answering location is not a gRPC one (no grpc_pass; it proxies HTTP or redirects) and yet begins with the rewrite that internal
    locations of gRPC path rules get ("^ $request_uri break"), which ends the rewrite phase before the URLRewrite of the rule:
    createLocations passes a flag that stays set for every path rule after the first gRPC one of the server *)
 Definition known_D48 := 48.
 Definition class_D48 (conf : list dir) (tbl : matchtable) (q : request) : bool :=
   match answering_location conf tbl q with
   | Some (loc, _) =>
-      match dirs_named "proxy_pass" (block_of loc), dirs_named "rewrite" (block_of loc) with
-      | _ :: _, r :: _ :: _ => match d_args r with ["^"; "$request_uri"; "break"] => true | _ => false end
+      match dirs_named "grpc_pass" (block_of loc), dirs_named "rewrite" (block_of loc) with
+      | [], r :: _ :: _ => match d_args r with ["^"; "$request_uri"; "break"] => true | _ => false end
       | _, _ => false
       end
   | None => false
